@@ -444,6 +444,7 @@ type Contract struct {
 }
 
 type FreshClause struct {
+	Props []string
 	Expr SExpr
 	When SExpr
 	Text string
@@ -1099,7 +1100,11 @@ func (c *Contract) addClause(word, label, rest, src string) error {
 			}
 		}
 	case "fresh":
-		fc := &FreshClause{Text: rest}
+		rest, ftags := splitTags(rest)
+		fc := &FreshClause{Text: rest, Props: ftags}
+		for _, t := range ftags {
+			c.Props[t] = true
+		}
 		ex, when := rest, ""
 		if i := strings.Index(rest, " when "); i >= 0 {
 			ex, when = rest[:i], rest[i+len(" when "):]
